@@ -22,8 +22,8 @@ function mk(name, vals, hasReturn, hasThrow, retDone) {
 }
 function f2(a, b) { return [a, b]; }
 function* innerc() { try { yield 'c1'; yield 'c2'; } catch (e) { log('innerc caught ' + describe(e)); return 'innerc ret'; } return 'innerc end'; }
-function mkf(name, k) { var i = 0; return { [Symbol.iterator]() { return this; }, next(v) { i++; log(name + '.next#' + i + ' ' + describe(v)); if (i === k) throw new RangeError(name + ' fails'); return {value: name + i, done: i > 3}; } }; }
-function mkt(name) { var i = 0; return { [Symbol.iterator]() { return this; }, next() { i++; return {value: i, done: i > 2}; }, return(v) { log(name + '.return'); throw new RangeError(name + ' return throws'); } }; }
+function mkf(name, k) { var i = 0; return { [Symbol.iterator]() { return this; }, next(v) { i++; log(name + '.next#' + i + ' ' + describe(v)); if (i === k) throw name + ' fails'; return {value: name + i, done: i > 3}; } }; }
+function mkt(name) { var i = 0; return { [Symbol.iterator]() { return this; }, next() { i++; return {value: i, done: i > 2}; }, return(v) { log(name + '.return'); throw name + ' return throws'; } }; }
 function pc(v) { var p = Promise.resolve(v); p.constructor = Object; return p; }
 function at(d, f) { return d > 0 ? at(d - 1, f) : f(); }
 function deepTry(d) { try { if (d > 0) deepTry(d - 1); } finally { } } // grows the VM's try stack while an iterator is being closed
